@@ -71,3 +71,21 @@ contract('parso.python.tokenize._find_fstring_string',
                                    'implies(old(top(fstring_stack).previous_lines) != "", tos.last_string_start_pos == old(top(fstring_stack).last_string_start_pos))',
                                    'implies(old(top(fstring_stack).previous_lines) == "", tos.last_string_start_pos == (lnum, pos))'])},
          props=['C01', 'C03', 'C09'])
+
+# ---- _split_illegal_unicode_name: a NAME match that is not an identifier is cut into NAME / ERRORTOKEN pieces.
+# Tiling: the pieces are consecutive slices of the token and cover it; only the first piece carries the prefix; each
+# piece starts at the token's column plus its offset.
+contract('parso.python.tokenize._split_illegal_unicode_name', kind='generator',
+         params={'token': 'str', 'start_pos': 'pos', 'prefix': 'str'}, yields='ref:PythonToken',
+         yield_acc={'ylen': 'len(y.string)'},
+         yield_ensures=['y is not None', 'len(y.string) >= 1',
+                        'y.string == token[ylen:ylen + len(y.string)]',                 # the next slice of the token
+                        'y.start_pos == (start_pos[0], start_pos[1] + ylen)',           # at its true column
+                        'y.prefix == ite(ylen == 0, old(prefix), "")'],                 # the prefix goes to the first piece only
+         ensures=['ylen == len(token)'],
+         inline=['parso.python.tokenize._split_illegal_unicode_name.create_token'],
+         loops={0: dict(views={'found': 'token[ylen:_i]'},
+                        invariant=['0 <= ylen and ylen <= _i', 'pos == (start_pos[0], start_pos[1] + ylen)',
+                                   'implies(ylen == _i, _i == 0 and not is_illegal)',
+                                   'prefix == ite(ylen == 0, old(prefix), "")'])},
+         props=['C01', 'C09'])
